@@ -84,8 +84,72 @@ def outcome(fn):
         return "internal", ex
 
 
+LIFE_TEXTS = ["if a is lo then y is lo", "if a is hi then y is hi", "if a is nowhere then y is lo", "if a is lo then y is nowhere"]
+
+
+def lifecycle_leg(ctx, fl):
+    """spec/MC_RuleLifecycle: every behaviour of parse / load / unload / load_rules / unload_rules / restart on a block of two
+    rules, replayed on a real RuleBlock: is_loaded of each rule and of its halves, the text, and whether the operation raised"""
+    head = "SPECIFICATION Spec\nCONSTANTS NRules = 2\n  Texts <- TextsDef\n  KeepOnFailure = {k}\n  MaxSteps = {n}\n  Emit = {e}\n"
+    props = "INVARIANT LoadedIsConsistent\nINVARIANT BlockLoad\nPROPERTY PropFailedLoad\nPROPERTY PropGoodLoad\nVIEW View\nCHECK_DEADLOCK FALSE\n"
+    n = 4 if ctx.quick else 5
+    ctx.expect_holds(ctx.tlc("MC_RuleLifecycle", write_cfg("MC_RuleLifecycle", head.format(k="FALSE", n=n + 2, e="FALSE") + props), workers=16, timeout=1800), "MC_RuleLifecycle")
+    ctx.expect_canary(ctx.tlc("MC_RuleLifecycle", write_cfg("MC_RuleLifecycle_canary", head.format(k="TRUE", n=4, e="FALSE") + props), workers=8), "KeepOnFailure")
+    g = ctx.tlc("MC_RuleLifecycle", write_cfg("Gen_RuleLifecycle", head.format(k="FALSE", n=n, e="TRUE") + "INVARIANT EmitInv\nCHECK_DEADLOCK FALSE\n"), workers=16, timeout=1800)
+    if len(g.emitted) < 2000:
+        raise MachineryError(f"only {len(g.emitted)} rule-lifecycle behaviours")
+    div = 0
+    e = make_engine(fl)
+    e.rule_blocks.append(fl.RuleBlock("life"))
+    for beh in g.emitted:
+        rb = fl.RuleBlock("life", rules=[fl.Rule.create(LIFE_TEXTS[0]), fl.Rule.create(LIFE_TEXTS[0])])
+        e.rule_blocks[-1] = rb
+        ctx.traces += 1
+        for k, (st, ex) in enumerate(zip(beh["steps"], beh["expect"])):
+            a, i, t = st["act"], st["i"] - 1, st["t"] - 1
+            raised = None
+            try:
+                if a == "parse":
+                    rb.rules[i].text = LIFE_TEXTS[t]
+                elif a == "parse-refused":
+                    rb.rules[i].text = "a is lo then y is lo"
+                elif a == "load":
+                    rb.rules[i].load(e)
+                elif a == "unload":
+                    rb.rules[i].unload()
+                elif a == "load_rules":
+                    rb.load_rules(e)
+                elif a == "unload_rules":
+                    rb.unload_rules()
+                elif a == "restart":
+                    e.restart()
+            except Exception as exn:
+                raised = exn
+            ctx.count()
+            case = {"steps": beh["steps"][: k + 1], "texts": LIFE_TEXTS}
+            if raised is not None and not isinstance(raised, (SyntaxError, ValueError, KeyError, RuntimeError)):
+                ctx.violation(f"RuleLifecycle/{a}/internal-{type(raised).__name__}", case, "a syntax, value or lookup error", f"{type(raised).__name__}: {raised}", step=k)
+                break
+            bad = None
+            for j, (r, xr) in enumerate(zip(rb.rules, ex["rules"])):
+                want_loaded = xr["ante"] != 0 and xr["cons"] != 0
+                if r.is_loaded() and not want_loaded and a in ("load", "load_rules", "restart") and bool(ex["raised"]):
+                    ctx.violation(f"RuleLifecycle/{a}/loaded-after-failed-load", case, False, True,
+                                  note=f"rule {j + 1} ('{r.text}') reports loaded after {a} failed", step=k)
+                    bad = True
+                elif (r.is_loaded(), r.antecedent.is_loaded(), r.consequent.is_loaded(), r.text) != (want_loaded, xr["ante"] != 0, xr["cons"] != 0, LIFE_TEXTS[xr["txt"] - 1]) \
+                        or (raised is not None) != bool(ex["raised"]):
+                    div += 1           # the model and the code differ on something the property does not speak about
+                    bad = True
+            if bad:
+                break
+    ctx.extra["rule_lifecycle_behaviours"] = len(g.emitted)
+    ctx.extra["rule_lifecycle_model_divergence"] = div
+
+
 def run(ctx: core.Ctx):
     fl = core.import_fuzzylite()
+    lifecycle_leg(ctx, fl)
     rng = random.Random(ctx.seed)
     la, lc = (4, 4) if ctx.quick else (5, 5)
     head = "SPECIFICATION Spec\n" + CONSTS + f"  LenA = {la}\n  LenC = {lc}\n  Emit = TRUE\n"
